@@ -122,6 +122,11 @@ func (sh *shard) wspControl(path string, cred httpCred) (*wspConn, string, error
 
 // wspPlay runs DESCRIBE / SETUP x2 / PLAY on a control channel.
 func (sh *shard) wspPlay(c *wspConn, path string) (statuses []int, ok bool) {
+	return sh.wspPlayPre(c, path, nil)
+}
+
+// wspPlayPre: as wspPlay; beforePlay (if any) runs between the last SETUP and PLAY.
+func (sh *shard) wspPlayPre(c *wspConn, path string, beforePlay func()) (statuses []int, ok bool) {
 	u := sh.s.RTSP(path)
 	st, _, err := c.rtsp("DESCRIBE", u, map[string]string{"Accept": "application/sdp"})
 	statuses = append(statuses, st)
@@ -134,6 +139,9 @@ func (sh *shard) wspPlay(c *wspConn, path string) (statuses []int, ok bool) {
 		if err != nil || st != 200 {
 			return statuses, false
 		}
+	}
+	if beforePlay != nil {
+		beforePlay()
 	}
 	st, _, err = c.rtsp("PLAY", u, map[string]string{"Range": "npt=0.000-"})
 	statuses = append(statuses, st)
